@@ -523,9 +523,18 @@ func (m *model) Reset() {
 	m.now, m.foreign, m.nEvents = 0, false, 0
 }
 
-func (m *model) NumOps() int { return len(m.ops) }
+// The first "operation" of a history is a pair of events (index nBase + a*nBase + b):
+// the engine shards the search over worker processes by the first operation, and
+// pairs give it enough first operations of similar weight.
+func (m *model) NumOps() int { return len(m.ops) + len(m.ops)*len(m.ops) }
+
+func (m *model) pair(i int) (a, b int) { i -= len(m.ops); return i / len(m.ops), i % len(m.ops) }
 
 func (m *model) OpName(i int) string {
+	if i >= len(m.ops) {
+		a, b := m.pair(i)
+		return m.OpName(a) + " ; " + m.OpName(b)
+	}
 	o := m.ops[i]
 	hi := ""
 	if o.hi {
@@ -565,11 +574,17 @@ func (m *model) OpName(i int) string {
 
 // Possible prunes from the history alone.
 func (m *model) Possible(h []int, op int) bool {
-	o := m.ops[op]
-	if m.cfg.runs {
-		return (len(h) == 0) == (o.kind == oRun)
+	if (len(h) == 0) != (op >= len(m.ops)) {
+		return false
 	}
-	return true
+	if op >= len(m.ops) {
+		a, b := m.pair(op)
+		if m.cfg.runs {
+			return m.ops[a].kind == oRun && m.ops[b].kind != oRun
+		}
+		return true
+	}
+	return !m.cfg.runs || m.ops[op].kind != oRun
 }
 
 func (m *model) waitingPriorities() int {
@@ -581,6 +596,16 @@ func (m *model) waitingPriorities() int {
 }
 
 func (m *model) Enabled(i int) bool {
+	if i >= len(m.ops) {
+		a, b := m.pair(i)
+		if m.nEvents != 0 || !m.Enabled(a) {
+			return false
+		}
+		v := m.applyBase(a)
+		ok := v != nil || m.Enabled(b) // a violation of the first event is reported by Apply
+		m.Reset()
+		return ok
+	}
 	o := m.ops[i]
 	if m.cfg.runs && (m.nEvents == 0) != (o.kind == oRun) {
 		return false
@@ -1222,6 +1247,17 @@ func (m *model) doAdd(k int) *hist.Violation {
 }
 
 func (m *model) Apply(i int) *hist.Violation {
+	if i >= len(m.ops) {
+		a, b := m.pair(i)
+		if v := m.applyBase(a); v != nil {
+			return v
+		}
+		return m.applyBase(b)
+	}
+	return m.applyBase(i)
+}
+
+func (m *model) applyBase(i int) *hist.Violation {
 	o := m.ops[i]
 	m.nEvents++
 	m.isPush = false
@@ -1537,7 +1573,8 @@ func scopeRuns(name string, joint bool, tmpls []tmpl, times []time.Duration) *sc
 func main() {
 	log.ReplaceGlobals(zap.NewNop(), &log.ZapProperties{})
 	mk := func(c func() *scopeCfg, tiers string, depth int, suffix string) *hist.Scope {
-		return &hist.Scope{Name: c().name + suffix, Tiers: tiers, Depth: depth, NewModel: func() hist.Model { return newModel(c()) }}
+		return &hist.Scope{Name: c().name + suffix, Tiers: tiers, Depth: depth - 1, // the first operation is a pair of events
+			NewModel: func() hist.Model { return newModel(c()) }}
 	}
 	runsJ := func() *scopeCfg { return scopeRuns("runs/joint", true, jointTemplates(), []time.Duration{min11}) }
 	runsP := func() *scopeCfg { return scopeRuns("runs/no-joint", false, plainTemplates(), []time.Duration{min11}) }
